@@ -694,6 +694,8 @@ def c11(run):
             body = ''.join(rng.choice('abc XYZ,.!?\'- 09éΩ') for _ in range(k))
             if rng.random() < 0.3:
                 body += rng.choice([' "quoted" ', ' (aside) ', '  ', ' said ', ' says '])
+            if rng.random() < 0.2:
+                body += rng.choice(['\r', ' \r', '\r\r', 'x\r', '\t', '\x0b', '\u00a0', '\u2028'])     # the line ends at the line feed, nothing else
             src = 'X says ' + body + '\nsay X\n'
             cases.append(('str', src, body, None, body))
     # word lengths and word counts sweeping powers of two +-1 and 1000 (a digit is the length modulo 10 whatever the length)
